@@ -801,23 +801,22 @@ def linesplit(string: Union[str, FmtStr], columns: int) -> List[FmtStr]:
 
 def normalize_slice(length: int, index: Union[int, slice]) -> slice:
     "Fill in the Nones in a slice."
-    is_int = False
     if isinstance(index, int):
-        is_int = True
+        if index < -length or index >= length:
+            raise IndexError(f"index out of bounds: {index!r} for length {length}")
+        if index < 0:
+            index += length
         index = slice(index, index + 1)
     if index.start is None:
         index = slice(0, index.stop, index.step)
     if index.stop is None:
         index = slice(index.start, length, index.step)
-    if index.start < -1:  # XXX why must this be -1?
-        index = slice(length - index.start, index.stop, index.step)
-    if index.stop < -1:  # XXX why must this be -1?
-        index = slice(index.start, length - index.stop, index.step)
+    if index.start < 0:
+        index = slice(max(0, length + index.start), index.stop, index.step)
+    if index.stop < 0:
+        index = slice(index.start, max(0, length + index.stop), index.step)
     if index.step is not None:
         raise NotImplementedError("You can't use steps with slicing yet")
-    if is_int:
-        if index.start < 0 or index.start > length:
-            raise IndexError(f"index out of bounds: {index!r} for length {length}")
     return index
 
 
